@@ -1,15 +1,14 @@
 /- C19 helper lemmas, part 1: `Equal`, `runCalls`, and the shape of `sync`'s trace. -/
 import MysyncModel.App.Optimization
+import MysyncProofs.Lemmas.ReplSettingsSpec
 
 namespace OptimizationLemmas
 open NS Optimization
 
 /-! ### `Equal` -/
 
-theorem equal_iff (a b : RS) : Gen.ReplSettings.Equal a b = true ↔ a = b := by
-  cases a; cases b
-  simp [Gen.ReplSettings.Equal]
-  omega
+theorem equal_iff (a b : RS) : Gen.ReplSettings.Equal a b = true ↔ a = b :=
+  ReplSettingsSpec.equal_iff_eq a b
 
 theorem equal_refl (a : RS) : Gen.ReplSettings.Equal a a = true := (equal_iff a a).2 rfl
 
